@@ -97,6 +97,7 @@ def explore(label: str, cfg: Dict[str, Any], budget: int, rng: random.Random, ch
             if len(req) > 2 and str(req[2]) in removed_on:
                 exist = False
             obs, leaf = rq.dry_run(sim, req)
+            gone = rq.addresses_absent(sim, req)
             status, reason, raised = "", False, None
             try:
                 resp = sim.apply_request(copy.deepcopy(req))
@@ -107,7 +108,7 @@ def explore(label: str, cfg: Dict[str, Any], budget: int, rng: random.Random, ch
                 status = f"raised:{type(e).__name__}"
                 raised = repr(e)
             post = numbering.num(rq.state_digest(sim))
-            events.append(rq.req_event(obs, leaf, True, status, reason, cur, post, "na", isact, exist))
+            events.append(rq.req_event(obs, leaf, True, status, reason, cur, post, "na", isact, exist, gone))
             meta.append({"request": [str(x)[:60] for x in req], "kind": aname, "mutation": mut, "raised": raised})
             if len(req) > 2 and (any(str(x) in ("uninstall", "delete") for x in req[3:]) or aname in ("node-application-remove", "node-file-delete")):
                 removed_on.add(str(req[2]))
@@ -142,6 +143,61 @@ def explore(label: str, cfg: Dict[str, Any], budget: int, rng: random.Random, ch
             if e["ev"] == "Tick" or e["exec"]:
                 dig = e["post"]
     chk.cov.setdefault("request_kinds", {})[label] = len(kinds_seen)
+    return traces
+
+
+def explore_after_uninstall(label: str, cfg: Dict[str, Any], rng: random.Random, chk: common.Check, per_scenario: int = 6) -> List[Dict[str, Any]]:
+    """Directed histories: an application is uninstalled through its request, then every request it used to offer (the
+    routes read from the live tree BEFORE the removal, plus the generic application verbs) is sent to its name.  The
+    component is gone by the simulator's own tables: none of these may succeed or change anything."""
+    traces = []
+    game0 = scenarios.build(cfg)
+    pairs = [(n.config.hostname, a.name) for n in game0.simulation.network.nodes.values() for a in n.applications.values()]
+    rng.shuffle(pairs)
+    # prefer applications of different kinds
+    chosen, seen_kinds = [], set()
+    for h, a in pairs:
+        if a not in seen_kinds or len(chosen) < per_scenario // 2:
+            chosen.append((h, a))
+            seen_kinds.add(a)
+        if len(chosen) >= per_scenario:
+            break
+    for h, a in chosen:
+        game = scenarios.build(cfg)
+        sim = game.simulation
+        numbering = rq.DigestNumbering()
+        prefix = ["network", "node", h, "application", a]
+        routes = [list(p) for p in sim._request_manager.get_request_types_recursively() if [str(x) for x in p[:5]] == prefix]
+        verbs = {tuple(str(x) for x in p[5:]) for p in routes} | {("execute",), ("scan",), ("fix",), ("close",), ("compromise",)}
+        events, meta = [], []
+        cur = numbering.num(rq.state_digest(sim))
+        start = cur
+        seq = [(["network", "node", h, "software_manager", "application", "uninstall", a], "uninstall")]
+        for v in sorted(verbs):
+            tail = list(v)
+            if a == "nmap" and v and v[0] in ("ping_scan", "port_scan", "network_service_recon"):
+                tail = tail + [{"target_ip_address": "192.168.1.0/29", "show": False, "target_port": [80], "target_protocol": ["tcp"]}]
+            seq.append((prefix + tail, "after-uninstall"))
+        for req, what in seq:
+            obs, leaf = rq.dry_run(sim, req)
+            gone = rq.addresses_absent(sim, req)
+            status, reason, raised = "", False, None
+            try:
+                resp = sim.apply_request(copy.deepcopy(req))
+                status = getattr(resp, "status", None) or f"not-a-response:{type(resp).__name__}"
+                data = getattr(resp, "data", None) or {}
+                reason = bool(data.get("reason")) if isinstance(data, dict) else False
+            except Exception as e:  # noqa
+                status = f"raised:{type(e).__name__}"
+                raised = repr(e)
+            post = numbering.num(rq.state_digest(sim))
+            events.append(rq.req_event(obs, leaf, True, status, reason, cur, post, "na", False, False, gone))
+            meta.append({"request": [str(x)[:60] for x in req], "kind": f"{what}:{a}", "mutation": "wellformed", "raised": raised})
+            chk.add_case({"s": label, "k": f"{what}:{a}", "v": [str(x) for x in req[5:6]], "st": status}, nontrivial=True)
+            cur = post
+            if what == "uninstall" and status != "success":
+                break
+        traces.append({"cfg": {"dig": start}, "ev": events, "meta": {"scenario": label + ":after-uninstall", "requests": meta}})
     return traces
 
 
@@ -265,6 +321,12 @@ def explore_tours(seed: int, chk: common.Check, visits: int, facets=("svc", "app
         for ei, ep in enumerate(eps):
             game = scenarios.build(cfg)
             sim = game.simulation
+            if facet == "app" and ei % 2 == 1:
+                # the toured application shares its (port, protocol) pair with software installed AFTER it on the same node
+                # (a web server next to the web browser): removing the one must not leave the other's - or its own - route behind
+                from primaite.simulator.system.services.web_server.web_server import WebServer
+
+                sim.network.get_node_by_hostname(tour.TARGET[facet][0]).software_manager.install(WebServer)
             numbering = rq.DigestNumbering()
             events, meta = [], []
             cur = numbering.num(rq.state_digest(sim))
@@ -278,6 +340,7 @@ def explore_tours(seed: int, chk: common.Check, visits: int, facets=("svc", "app
                 entry = amap[idx[a]]
                 req = rq.form(entry["action"], entry["options"])
                 obs, leaf = rq.dry_run(sim, req)
+                gone = rq.addresses_absent(sim, req)
                 exist = _live(game, facet, entry["action"])
                 status, reason, raised = "", False, None
                 try:
@@ -289,7 +352,7 @@ def explore_tours(seed: int, chk: common.Check, visits: int, facets=("svc", "app
                     status = f"raised:{type(e).__name__}"
                     raised = repr(e)
                 post = numbering.num(rq.state_digest(sim))
-                events.append(rq.req_event(obs, leaf, True, status, reason, cur, post, "na", True, exist))
+                events.append(rq.req_event(obs, leaf, True, status, reason, cur, post, "na", True, exist, gone))
                 meta.append({"request": [str(x)[:60] for x in req], "kind": entry["action"], "mutation": "wellformed", "raised": raised})
                 chk.add_case({"s": label, "k": entry["action"], "at": state, "st": status}, nontrivial=True)
                 try:
@@ -339,6 +402,14 @@ def main(tier: str, seed: int) -> int:
     budget = 180 if tier == "quick" else 2500
     for label, cfg in scenario_list(tier):
         traces += explore(label, cfg, budget, rng, chk)
+    n_gone = 0
+    for label, cfg in scenario_list(tier)[: 3 if tier == "quick" else None]:
+        trs = explore_after_uninstall(label, cfg, rng, chk, 6 if tier == "quick" else 30)
+        n_gone += sum(1 for tr in trs for e in tr["ev"] if e["gone"])
+        traces += trs
+    if n_gone == 0:
+        raise tlc.TLCError("vacuous: no request was addressed to an uninstalled application")
+    chk.cov["requests_to_uninstalled_applications"] = n_gone
     fs_behs, info = tlc.simulate("MC_FileSystem", "Sim_FileSystem.cfg", num=25 if tier == "quick" else 250, depth=30, seed=seed + 4)
     # plus every short history of ONE file and its folder over the file-system model's action alphabet (bounded-
     # exhaustive: all sequences of length <= 3, a seeded sample of length 4 / all of length 4 in thorough), each followed
